@@ -85,6 +85,7 @@ package cli
 //@   requires offset != nil && ir.buf != nil ==> 0 <= deref(offset) && deref(offset) <= len(out(ir.buf))
 //@   property C17
 //@   modifies cell(offset), cell(line)
+//@   loop 1 invariant len(out(buf)) == 0
 //@   loop 1 invariant offset != nil ==> deref(offset) <= old(deref(offset)) && (old(deref(offset)) >= 1 ==> deref(offset) >= 1)
 //@   ensures offset != nil && ir.buf == nil && old(deref(offset)) >= 1 ==> deref(offset) >= 1 && deref(offset) <= old(deref(offset))
 
